@@ -57,6 +57,25 @@ VALMAP = {2: "s", 3: 2.5, 4: True, 5: [1, 2], 12: "kw", 13: False, 14: 0, 15: ""
 O1_SECOND = 93
 
 
+class Settings:
+    """an application object that merely HAS attributes named like the engine's (autoescape, environment, resolve)"""
+    autoescape = True
+    environment = None
+    volatile = False
+
+    def resolve(self, key):
+        return None
+
+
+def _engine_like():
+    import jinja2
+    env = jinja2.Environment(autoescape=True)
+    return {6: Settings(), 8: env, 9: env.from_string("x").new_context({}), 10: jinja2.Environment}
+
+
+PYONLY = {}       # filled on first use: values only a call from Python can pass (i6, i8, i9, i10)
+
+
 def outer_field(d, c=None):
     path = c["path"] if c else "py"
     o = [f"10=i{O1_SECOND if path == 'seq2' else O1_CALL}"]
@@ -189,6 +208,9 @@ class Canon:
         for k, x in VALMAP.items():
             if type(v) is type(x) and v == x:
                 return f"i{k}"
+        for k, x in PYONLY.items():
+            if v is x:
+                return f"i{k}"
         if isinstance(v, bool):
             return "?bool"
         if isinstance(v, int):
@@ -268,6 +290,10 @@ class Real:
             return None
         if v == "M":
             return self.cb
+        if not PYONLY:
+            PYONLY.update(_engine_like())
+        if int(v[1:]) in PYONLY:
+            return PYONLY[int(v[1:])]
         x = VALMAP.get(int(v[1:]), int(v[1:]))
         return list(x) if isinstance(x, list) else x
 
@@ -424,6 +450,11 @@ def random_call(ctx, d, path):
             v = "N" if path != "block" else "M"
         kw.append([nm, v])
     args = [ctx.rng.choice([f"i{1 + i}", f"i{1 + i}", "N"]) for i in range(npos)]
+    if path == "py" and args and ctx.rng.random() < 0.3:
+        # from Python any object can be an argument: also ones that look like engine objects (an object with an
+        # `autoescape` attribute, an Environment, a Context, the Environment class) in the FIRST position, where
+        # Macro.__call__ looks for a real EvalContext
+        args[ctx.rng.choice([0, 0, len(args) - 1])] = ctx.rng.choice(["i6", "i8", "i9", "i10"])
     c = {"args": args, "kw": kw, "path": path}
     if path == "block":
         # the call block passes caller=<macro> after the explicit keywords; an explicit caller
@@ -598,6 +629,23 @@ def probes(ctx, real):
             ctx.count("probe_rejected_by_engine")
         except Exception as e:  # noqa
             ctx.reject({"template": src}, f"{what}: unexpected {type(e).__name__}", "macro-binding: " + what)
+    # a special name re-bound in the macro's own scope without being read (set, import ... as, from ... import ... as):
+    # what the body reads afterwards is the local, so the macro does not take surplus keywords / positionals
+    real.sources["libk"] = "{% macro f() %}F{% endmacro %}"
+    lenv = real.envs[("sync", "plain")]
+    for rebind in ("{% set kwargs = 1 %}{{ kwargs }}", "{% import 'libk' as kwargs %}{{ kwargs.f() }}",
+                   "{% from 'libk' import f as kwargs %}{{ kwargs() }}", "{% from 'libk' import f as varargs %}{{ varargs() }}"):
+        call = "{{ m(1) }}" if "varargs" in rebind else "{{ m(zzz=1) }}"
+        src = "{% macro m() %}" + rebind + "{% endmacro %}" + call
+        n += 1
+        try:
+            out = lenv.from_string(src).render()
+            ctx.reject({"template": src}, f"the body reads its own local, yet the surplus argument is accepted (rendered {out!r})",
+                       "macro-binding: a special name re-bound by import still makes the macro take surplus arguments")
+        except TypeError:
+            ctx.count("probe_rebound_special_ok")
+        except Exception as e:  # noqa
+            ctx.reject({"template": src}, f"unexpected {type(e).__name__}: {e}", "macro-binding: re-bound special name: " + type(e).__name__)
     # keywords that collide with the engine's internal call protocol (inside the quantifier: "unknown names").
     # Given explicitly they must bind (kwargs / TypeError) or be rejected as a template error; through ** they
     # still reach Context.call, which strips them (known finding).
